@@ -1181,6 +1181,10 @@ func (gs *GossipSubRouter) handleGraft(p peer.ID, ctl *pb.ControlMessage) []*pb.
 	return cprune
 }
 
+// maxPruneBackoffSeconds bounds the backoff period a peer can name in a PRUNE
+// (about 68 years; anything longer is treated as that).
+const maxPruneBackoffSeconds = 1 << 31
+
 func (gs *GossipSubRouter) handlePrune(p peer.ID, ctl *pb.ControlMessage) {
 	score := gs.score.Score(p)
 
@@ -1197,6 +1201,12 @@ func (gs *GossipSubRouter) handlePrune(p peer.ID, ctl *pb.ControlMessage) {
 		// is there a backoff specified by the peer? if so obey it.
 		backoff := prune.GetBackoff()
 		if backoff > 0 {
+			// The period is the peer's choice: keep the conversion to a Duration
+			// (and the expiry computed from it) from overflowing, which would turn
+			// a very long backoff into one that has already expired.
+			if backoff > maxPruneBackoffSeconds {
+				backoff = maxPruneBackoffSeconds
+			}
 			gs.doAddBackoff(p, topic, time.Duration(backoff)*time.Second)
 		} else {
 			gs.addBackoff(p, topic, false)
